@@ -136,9 +136,11 @@ pub fn cancel(slot: u32) -> Op {
 pub fn scenario(full_name: &str, cycles: usize) -> Option<Program> {
     let p = Program::new(full_name);
     // "<name>+w": every worker thread has used its command queue before (thread-pool thread)
-    let (name, warm) = match full_name.strip_suffix("+w") {
+    // "<name>+rt": the reporter itself traces from inside report()
+    let base = full_name.strip_suffix("+rt").unwrap_or(full_name);
+    let (name, warm) = match base.strip_suffix("+w") {
         Some(n) => (n, true),
-        None => (full_name, false),
+        None => (base, false),
     };
     let mut pr = match name {
         // worker creates a root, finishes it, exits at once
@@ -384,19 +386,36 @@ pub fn future_programs(thorough: bool) -> Vec<Program> {
         s.push((0, finish(0)));
         out.push(lockstep(&name("inscope"), &s));
     }
-    // nested in_span(in_span)
+    // nested in_span(in_span): the outer span a child or the trace's root, dropped at every point
     for polls in 1..=2u32 {
-        for seq in actor_seqs(polls as usize, 2) {
-            let mut s: Vec<(usize, Op)> = vec![(0, root(0, "r", 0x13)), (0, child(1, "o", 0)), (0, child(2, "i", 0))];
-            s.push((0, Op::MkNested { fut: 0, outer: 1, inner: 2, polls, tag: "f".into() }));
-            for a in &seq {
-                s.push((*a, Op::ObserveLocal));
-                s.push((*a, Op::Poll { fut: 0 }));
-                s.push((*a, Op::ObserveLocal));
+        for outer_is_root in [false, true] {
+            for done in 0..=polls {
+                for seq in actor_seqs(done as usize, 2) {
+                    if outer_is_root && seq.iter().any(|a| *a == 1) && !thorough {
+                        continue;
+                    }
+                    let mut s: Vec<(usize, Op)> = vec![(0, root(0, "r", 0x13))];
+                    let outer = if outer_is_root {
+                        0
+                    } else {
+                        s.push((0, child(1, "o", 0)));
+                        1
+                    };
+                    s.push((0, child(2, "i", outer)));
+                    s.push((0, Op::MkNested { fut: 0, outer, inner: 2, polls, tag: "f".into() }));
+                    for a in &seq {
+                        s.push((*a, Op::ObserveLocal));
+                        s.push((*a, Op::Poll { fut: 0 }));
+                        s.push((*a, Op::ObserveLocal));
+                    }
+                    let last = seq.last().copied().unwrap_or(0);
+                    s.push((last, Op::DropFut { fut: 0 }));
+                    if !outer_is_root {
+                        s.push((last, finish(0)));
+                    }
+                    out.push(lockstep(&name("nested"), &s));
+                }
             }
-            s.push((0, Op::DropFut { fut: 0 }));
-            s.push((0, finish(0)));
-            out.push(lockstep(&name("nested"), &s));
         }
     }
     // enter_on_poll alone: under a scope, and with no local parent at all
@@ -809,6 +828,67 @@ pub fn teardown_programs() -> Vec<Program> {
                 _ => vec![hook, Op::RandomIds],
             };
             out.push(Program::new(format!("C07-teardown#{idx}")).worker("A", ops).collector(0, true, 0));
+        }
+    }
+    out
+}
+
+/// C17: a captured set pushed to several parents whose traces have (or have not) already ended.
+pub fn late_push_programs() -> Vec<Program> {
+    let mut out = Vec::new();
+    let mut idx = 0;
+    let shapes: Vec<Vec<Op>> = vec![
+        vec![lenter("a"), levent("a.e"), lprop("a.k", "a.v"), pop()],
+        vec![lenter("a"), lenter("b"), levent("b.e"), pop(), lprop("a.k", "a.v"), pop(), levent("top.e")],
+        vec![lenter("a"), levent("a.e")],
+        vec![Op::LocalEnter { name: "a".into(), props: p("ck", "cv") }, pop(), lenter("b"), lprop("b.k", "b.v"), pop()],
+    ];
+    for shape in &shapes {
+        let opens = shape.iter().filter(|o| matches!(o, Op::LocalEnter { .. })).count() as i32 - shape.iter().filter(|o| matches!(o, Op::Pop)).count() as i32;
+        for n_parents in [2usize, 3] {
+            for same_trace in [false, true] {
+                for roots_first in [true, false] {
+                    idx += 1;
+                    let mut ops = vec![Op::LcStart];
+                    ops.extend(shape.iter().cloned());
+                    // spans still open are closed by collect(); the guards are released afterwards
+                    let _ = opens;
+                    ops.push(Op::LcCollect { set: 0 });
+                    let mut roots = Vec::new();
+                    let mut kids = Vec::new();
+                    for k in 0..n_parents {
+                        let rslot = 10 + k as u32;
+                        if k == 0 || !same_trace {
+                            ops.push(root(rslot, &format!("r{k}"), 0x170 + k as u128));
+                            roots.push(rslot);
+                        }
+                        let parent_root = if same_trace { roots[0] } else { rslot };
+                        ops.push(child(20 + k as u32, &format!("c{k}"), parent_root));
+                        kids.push(20 + k as u32);
+                    }
+                    if roots_first {
+                        for r in &roots {
+                            ops.push(finish(*r));
+                        }
+                    }
+                    for c in &kids {
+                        ops.push(Op::PushChildSpans { set: 0, slot: *c });
+                    }
+                    ops.push(Op::ToRecords { set: 0, trace: U128(0xEE), span_id: 0x99 });
+                    ops.push(Op::DropSet { set: 0 });
+                    for c in &kids {
+                        ops.push(finish(*c));
+                    }
+                    if !roots_first {
+                        for r in &roots {
+                            ops.push(finish(*r));
+                        }
+                    }
+                    // LcCollect consumed the collector guard; local spans left open by the shape are
+                    // only model-side guards of the interpreter
+                    out.push(Program::new(format!("C17-late#{idx}")).worker("A", ops));
+                }
+            }
         }
     }
     out
